@@ -110,9 +110,16 @@ def build(spec, p, symbolic, hprio=None):
     n = len(tspecs)
 
     # ---- components
+    # "idstyle": "bare" gives every kind of object the IDs "0", "1", ... (IDs are then only unique per kind)
+    bare = spec.get("idstyle") == "bare"
+
+    def oid(prefix, i):
+        return "%d" % i if bare else "%s%d" % (prefix, i)
+
+    M.oid = oid
     M.comps = []
     for ci, cs in enumerate(spec.get("comps", [])):
-        M.comps.append(BaseComponent("CP%d" % ci, ID="c%d" % ci, space_size=val(cs.get("size", 1), p)))
+        M.comps.append(BaseComponent("CP%d" % ci, ID=oid("c", ci), space_size=val(cs.get("size", 1), p)))
         M.comps[-1]._hprio = ci
     for ci, cs in enumerate(spec.get("comps", [])):
         for ch in cs.get("children", []):
@@ -126,7 +133,7 @@ def build(spec, p, symbolic, hprio=None):
         w = val(ts.get("w", 1), p)
         g = val(ts.get("g", 0), p)
         kw = dict(
-            ID="t%d" % ti,
+            ID=oid("t", ti),
             default_work_amount=w,
             default_progress=g / 2,
             auto_task=bool(ts.get("auto", False)),
@@ -136,9 +143,9 @@ def build(spec, p, symbolic, hprio=None):
         if "rate" in ts:
             kw["work_amount_progress_of_unit_step_time"] = val(ts["rate"], p)
         if ts.get("fixw") is not None:
-            kw["fixing_allocating_worker_id_list"] = ["w%d" % i for i in ts["fixw"]]
+            kw["fixing_allocating_worker_id_list"] = [oid("w", i) for i in ts["fixw"]]
         if ts.get("fixf") is not None:
-            kw["fixing_allocating_facility_id_list"] = ["f%d" % i for i in ts["fixf"]]
+            kw["fixing_allocating_facility_id_list"] = [oid("f", i) for i in ts["fixf"]]
         if ts.get("wrule") is not None:
             kw["worker_priority_rule"] = ResourcePriorityRuleMode(ts["wrule"])
         if ts.get("frule") is not None:
@@ -179,16 +186,16 @@ def build(spec, p, symbolic, hprio=None):
             fsk = {"F%s" % k: val(v, p) for k, v in wsp.get("fskills", {}).items()}
             wk = BaseWorker(
                 "W%d" % wi,
-                ID="w%d" % wi,
-                team_id="tm%d" % mi,
+                ID=oid("w", wi),
+                team_id=oid("tm", mi),
                 cost_per_time=val(wsp.get("cost", 1), p),
                 solo_working=bool(wsp.get("solo", False)),
                 workamount_skill_mean_map=skills,
                 workamount_skill_sd_map={},
                 facility_skill_map=fsk,
                 absence_time_list=vlist(wsp.get("abs", []), p),
-                main_workplace_id=("wp%d" % wsp["mw"]) if wsp.get("mw") is not None else None,
-                quality_skill_mean_map={},
+                main_workplace_id=oid("wp", wsp["mw"]) if wsp.get("mw") is not None else None,
+                quality_skill_mean_map={"T%s" % k: val(v, p) for k, v in wsp.get("qskills", {}).items()},
                 quality_skill_sd_map={},
             )
             wk._idx = wi
@@ -196,7 +203,7 @@ def build(spec, p, symbolic, hprio=None):
             M.workers.append(wk)
             M.wteam.append(mi)
             M.wspec.append(wsp)
-        tm = BaseTeam("TM%d" % mi, ID="tm%d" % mi, worker_list=ws)
+        tm = BaseTeam("TM%d" % mi, ID=oid("tm", mi), worker_list=ws)
         tm.extend_targeted_task_list([M.tasks[i] for i in ms.get("targets", [])])
         M.teams.append(tm)
 
@@ -212,8 +219,8 @@ def build(spec, p, symbolic, hprio=None):
             skills = {"T%s" % k: val(v, p) for k, v in fsp.get("skills", {}).items()}
             fc = BaseFacility(
                 "F%d" % fi,
-                ID="f%d" % fi,
-                workplace_id="wp%d" % pi,
+                ID=oid("f", fi),
+                workplace_id=oid("wp", pi),
                 cost_per_time=val(fsp.get("cost", 1), p),
                 solo_working=bool(fsp.get("solo", False)),
                 workamount_skill_mean_map=skills,
@@ -225,12 +232,15 @@ def build(spec, p, symbolic, hprio=None):
             M.facs.append(fc)
             M.fwp.append(pi)
             M.fspec.append(fsp)
-        wp = BaseWorkplace("WP%d" % pi, ID="wp%d" % pi, facility_list=fs, max_space_size=val(ps.get("cap", 1), p))
+        wp = BaseWorkplace("WP%d" % pi, ID=oid("wp", pi), facility_list=fs, max_space_size=val(ps.get("cap", 1), p))
         wp.extend_targeted_task_list([M.tasks[i] for i in ps.get("targets", [])])
         M.wps.append(wp)
     for pi, ps in enumerate(spec.get("wps", [])):
         for ii in ps.get("inputs", []):
             M.wps[pi].append_input_workplace(M.wps[ii])
+    for mi, ms in enumerate(spec.get("teams", [])):
+        if ms.get("parent") is not None:
+            M.teams[mi].set_parent_team(M.teams[ms["parent"]])
 
     # "tl_order": order in which the tasks are listed in the workflow (default: index order).  pDESy visits tasks in
     # task_list order in several places, so the listing order is part of the model.
